@@ -1,20 +1,203 @@
 import PySMT.Proofs.C05Spec
+import PySMT.Proofs.C05Interp
 /-!
 # C05 — substitution: property theorems (obligations)
+
+Model: `PySMT/Impl/Subst.lean` (`substMG`, `substMS`, `interpret`, `substitute`) over
+`PySMT/Impl/SubstBuild.lean` (`rebuild` = `IdentityDagWalker` through the manager constructors).
+Specification: `PySMT/Spec/Subst.lean` (`mgSpec`, `msSpec`, `NoCapture`, `updSyms`, `updFns`) and the
+reference semantics `eval`.
+
+Hypotheses used below (all decidable, all satisfied by every term a `FormulaManager` builds — the
+harness checks `Build.normal` on every generated formula):
+* `t.wf`      : well-typed with the constructors' arities (`Impl/WF.lean`);
+* `normal t`  : the constructors' normal form (`And` has ≥ 2 arguments, no `Not(Not x)`, payload
+                widths as the constructors compute them, …);
+* `ArrOK t`   : **restriction** — no array value with assigned pairs (`Array(idx, default)` only). The
+                theorems that need it are named `_partial`; array values with pairs are covered by K/S.
 -/
 namespace PySMT.C05
-open PySMT.Subst
-open PySMT.SubstSpec (mgSpec msSpec appOf)
+open PySMT.Subst PySMT.Build
+open PySMT.SubstSpec (mgSpec msSpec appOf SMap NoCapture updSyms updFns upd Def)
 
-/-- With arbitrary sub-terms as keys and any supplied function interpretations, `MGSubstituter`
-computes exactly the documented most-general replacement … -/
+/-! ## the result is exactly the documented replacement (all terms, all term-keyed maps, all
+function interpretations, both strategies, both environment defaults) -/
+
+/-- `MGSubstituter` computes the most-general replacement: the outermost matching sub-term is replaced … -/
 theorem substMG_eq_spec (envMs : Bool) (ι : IMap) (σ : Subst.TMap) (t : Term) :
     substMG envMs ι σ t = mgSpec (appOf envMs (defsOf ι)) σ t := by
   unfold substMG; rw [handlerOf_eq_appOf]; exact substG_mg_eq_spec _ t σ
 
-/-- … and `MSSubstituter` exactly the documented most-specific replacement. -/
+/-- … and `MSSubstituter` the most-specific one: children first, then the rebuilt node is looked up.
+In both, every application of an interpreted symbol is the instantiated body (`appOf`/`instantiate`). -/
 theorem substMS_eq_spec (envMs : Bool) (ι : IMap) (σ : Subst.TMap) (t : Term) :
     substMS envMs ι σ t = msSpec (appOf envMs (defsOf ι)) σ t := by
   unfold substMS; rw [handlerOf_eq_appOf]; exact substG_ms_eq_spec _ t σ
+
+/-! ## the substitution lemma -/
+
+theorem handlerOf_nil (envMs : Bool) : handlerOf envMs [] = noInterp := rfl
+
+/-- **Substitution lemma, `MGSubstituter`**: for every symbol-keyed type-correct map `σ`, every
+interpretation `I` and every term `t` such that no free symbol of a replacement falls under a
+quantifier binding it (`NoCapture`), the value of the result under `I` is the value of `t` under `I`
+updated with the values of the replacement terms.
+`_partial`: `ArrOK t` (no array value with assigned pairs). -/
+theorem subst_lemma_mg_partial (envMs : Bool) (t : Term) (σ : SMap) (I : Interp) (hI : I.WF)
+    (hwf : t.wf = true) (hn : normal t = true) (ha : ArrOK t = true) (hσ : SMapOK σ)
+    (hnc : NoCapture σ t = true) :
+    eval I (substMG envMs [] σ.toTMap t) = eval (updSyms I σ) t := by
+  unfold substMG; rw [handlerOf_nil]
+  exact subst_sem false t σ I hI hwf hn ha hσ hnc (fun e => by cases e)
+
+/-- **Substitution lemma, `MSSubstituter`**. `_partial`: `ArrOK t`, and `MSSafe σ` — no replacement
+is the negation of another key. Without it the statement is false for the real code and for the
+model alike: `Not(a)[a ↦ Not(x), x ↦ y]` is rebuilt to `x`, which the most-specific strategy looks
+up again and replaces by `y` (known finding F50; the harness reproduces it). -/
+theorem subst_lemma_ms_partial (envMs : Bool) (t : Term) (σ : SMap) (I : Interp) (hI : I.WF)
+    (hwf : t.wf = true) (hn : normal t = true) (ha : ArrOK t = true) (hσ : SMapOK σ)
+    (hnc : NoCapture σ t = true) (hsafe : MSSafe σ) :
+    eval I (substMS envMs [] σ.toTMap t) = eval (updSyms I σ) t := by
+  unfold substMS; rw [handlerOf_nil]
+  exact subst_sem true t σ I hI hwf hn ha hσ hnc (fun _ => hsafe)
+
+/-- **Occurrences bound by a quantifier are never replaced**: a map whose keys are symbols that do
+not occur free in `t` (they occur bound, or not at all) returns `t` itself — both strategies. -/
+theorem bound_untouched (ms envMs : Bool) (t : Term) (σ : SMap) (hwt : t.wt = true) (hn : normal t = true)
+    (hσ : ∀ kv ∈ σ, kv.1 ∉ t.fv) :
+    (if ms then substMS envMs [] σ.toTMap t else substMG envMs [] σ.toTMap t) = t := by
+  cases ms <;> simp only [substMS, substMG, handlerOf_nil, Bool.false_eq_true, if_false, if_true]
+  · exact Subst.bound_untouched false t σ hwt hn hσ
+  · exact Subst.bound_untouched true t σ hwt hn hσ
+
+/-- more generally, for term keys: a map none of whose keys occurs in `t` at a position where its
+free symbols are free returns `t` itself -/
+theorem keys_not_free_untouched (ms envMs : Bool) (t : Term) (σ : Subst.TMap) (hn : normal t = true)
+    (hσ : ∀ kv ∈ σ, occursFree kv.1 t = false) :
+    (if ms then substMS envMs [] σ t else substMG envMs [] σ t) = t := by
+  cases ms <;> simp only [substMS, substMG, handlerOf_nil, Bool.false_eq_true, if_false, if_true]
+  · exact substG_unchanged false t σ hn hσ
+  · exact substG_unchanged true t σ hn hσ
+
+/-- the empty map is the identity (on the terms the manager builds) -/
+theorem subst_empty (ms envMs : Bool) (t : Term) (hn : normal t = true) :
+    (if ms then substMS envMs [] [] t else substMG envMs [] [] t) = t :=
+  keys_not_free_untouched ms envMs t [] hn (fun _ h => by cases h)
+
+/-- **Type preservation**: a type-correct term-keyed map (every value well-typed, of the type of
+its key) and type-correct interpretations give a well-typed result of the type of `t`.
+`_partial`: `ArrOK t`; interpretations instantiated by the default `MGSubstituter`. -/
+theorem subst_type_partial (ms : Bool) (ι : IMap) (hι : IMapOKAll ι) (σ : Subst.TMap) (hσ : TyMap σ) (t : Term)
+    (hwt : t.wt = true) (hn : normal t = true) (ha : ArrOK t = true) :
+    let r := if ms then substMS false ι σ t else substMG false ι σ t
+    r.wt = true ∧ r.typeOf = t.typeOf := by
+  cases ms <;> simp only [substMS, substMG, Bool.false_eq_true, if_false, if_true]
+  · exact substG_type false (handlerOf_typed hι.ok) t σ hσ hwt hn ha
+  · exact substG_type true (handlerOf_typed hι.ok) t σ hσ hwt hn ha
+
+/-- **Interpretation lemma** (combined with a symbol-keyed substitution): with well-formed closed
+quantifier-free interpretations `ι`, the value of the result is the value of `t` under `I` with the
+replaced symbols updated and every interpreted function symbol denoting its body.
+`_partial`: `ArrOK t`; bodies quantifier-free (`FiOK.qf`: nothing of an actual argument can be
+captured); `MGSubstituter` with the default environment class (`MSSubstituter` with `σ = []` computes
+the same term). -/
+theorem interp_lemma_partial (ι : IMap) (hι : IMapOKAll ι) (t : Term) (σ : SMap) (I : Interp) (hI : I.WF)
+    (hwf : t.wf = true) (hn : normal t = true) (ha : ArrOK t = true) (hσ : SMapOK σ)
+    (hnc : NoCapture σ t = true) :
+    eval I (substMG false ι σ.toTMap t) = eval (upd I σ (defsOf ι)) t :=
+  subst_interp_sem hι t σ I hI hwf hn ha hσ hnc
+
+/-! ## non-vacuity: the hypotheses are satisfiable by non-trivial terms, maps and interpretations -/
+section Examples
+
+private def x : Sym := Sym.var "x" .int
+private def y : Sym := Sym.var "y" .int
+private def z : Sym := Sym.var "z" .int
+private def pS : Sym := Sym.var "p" .bool
+private def fS : Sym := ⟨"f", [.int, .int], .int⟩
+private def aS : Sym := Sym.var "a" .int
+private def bS : Sym := Sym.var "b" .int
+/-- `(∀ x. x < f(y, x) ∧ p) ∧ ¬p` : a bound `x`, free `y`, `p`, an application, a negation -/
+private def t0 : Term :=
+  .mkAnd [.mkForall [x] (.mkAnd [.node .lt [.sym x, .app fS [.sym y, .sym x]] .none, .sym pS]), .mkNot (.sym pS)]
+/-- `y ↦ z + 1, p ↦ ¬(z < 3)` : the second replacement meets `Not(p)` (double-negation collapse) -/
+private def σ0 : SMap := [(y, .node .plus [.sym z, .int 1] .none), (pS, .mkNot (.node .lt [.sym z, .int 3] .none))]
+/-- `f(a, b) = a + b` -/
+private def ι0 : IMap := [(fS, ⟨[aS, bS], .node .plus [.sym aS, .sym bS] .none⟩)]
+
+local macro "term_eval" : tactic => `(tactic| (
+  simp only [Term.wf, Term.typeOf, Term.wt, normal, ArrOK, Term.fv, Term.fnames, normalNode, Op.shapeOK,
+    Op.isQuantifier, Term.isQF, Term.subterms,
+    Term.mkForall, Term.mkAnd, Term.mkNot, Term.var, Term.sym, Term.app, Term.int, Sym.var, List.map, List.all, List.filter,
+    List.flatten, List.append, Term.op, t0, σ0, ι0, x, y, z, pS, fS, aS, bS] <;>
+  decide))
+
+example : t0.wf = true ∧ normal t0 = true ∧ ArrOK t0 = true := ⟨by term_eval, by term_eval, by term_eval⟩
+
+example : NoCapture σ0 t0 = true := by
+  simp [NoCapture.eq_def, Term.fv, Op.isQuantifier, SMap.drop, Term.mkForall, Term.mkAnd, Term.mkNot, Term.sym,
+    Term.app, Term.int, Sym.var, t0, σ0, x, y, z, pS, fS]
+
+/-- … whereas `y ↦ x + 1` is excluded by the proviso: `x` would be captured -/
+example : NoCapture [(y, .node .plus [.sym x, .int 1] .none)] t0 = false := by
+  simp [NoCapture.eq_def, Term.fv, Op.isQuantifier, SMap.drop, Term.mkForall, Term.mkAnd, Term.mkNot, Term.sym,
+    Term.app, Term.int, Sym.var, t0, x, y, pS, fS]
+
+example : SMapOK σ0 := by
+  intro kv h
+  simp only [σ0, List.mem_cons, List.not_mem_nil, or_false] at h
+  rcases h with rfl | rfl
+  · exact ⟨rfl, by term_eval, by term_eval⟩
+  · exact ⟨rfl, by term_eval, by term_eval⟩
+
+example : MSSafe σ0 := by
+  intro kv h b pl e
+  simp only [σ0, List.mem_cons, List.not_mem_nil, or_false] at h
+  rcases h with rfl | rfl
+  · simp [Term.sym] at e
+  · simp only [Term.mkNot, Term.node.injEq, List.cons.injEq, and_true, true_and] at e
+    obtain ⟨rfl, _⟩ := e
+    simp [lookup, SMap.toTMap, σ0, Term.sym, y, pS]
+
+example : IMapOKAll ι0 := by
+  intro gf h
+  simp only [ι0, List.mem_cons, List.not_mem_nil, or_false] at h
+  subst h
+  exact ⟨by term_eval, by term_eval, by term_eval, by term_eval, rfl, by simp [aS, bS, Sym.var], by simp [aS, bS, Sym.var],
+    by simp [Term.fv, Term.sym], by term_eval, by term_eval⟩
+
+/-- a well-formed interpretation exists -/
+example : ∃ I : Interp, I.WF :=
+  ⟨{ sym := fun s => s.ret.defaultVal, fn := fun f _ => f.ret.defaultVal, dom := fun t => [t.defaultVal],
+     div0r := fun _ => 0, div0i := fun _ => 0 },
+   by
+    have hdef : ∀ t : Ty, t.defaultVal.hasSort t = true := by
+      intro t
+      induction t with
+      | bool | int | real | str => rfl
+      | bv w => simp [Ty.defaultVal, Val.hasSort, Nat.two_pow_pos]
+      | array i e _ ihe => simp [Ty.defaultVal, Val.hasSort, ihe]
+      | custom n => simp [Ty.defaultVal, Val.hasSort]
+    exact ⟨fun s => hdef _, fun f _ => hdef _, fun t => by simp, fun t v hv => by simp at hv; subst hv; exact hdef t⟩⟩
+
+private def a : Sym := Sym.var "a" .bool
+private def xb : Sym := Sym.var "x" .bool
+private def yb : Sym := Sym.var "y" .bool
+private def σ50 : SMap := [(a, .mkNot (.sym xb)), (xb, .sym yb)]
+
+/-- finding F50 on the model: for `Not(a)` and `{a ↦ Not(x), x ↦ y}` the most-general strategy returns
+`x` (the value the substitution lemma predicts), the most-specific one `y`; `MSSafe σ50` fails -/
+example : substMG false [] σ50.toTMap (.mkNot (.sym a)) = .sym xb ∧
+    substMS false [] σ50.toTMap (.mkNot (.sym a)) = .sym yb := by
+  constructor <;>
+  simp [substMG, substMS, substG.eq_def, handlerOf_nil, build, rebuild, mkNotN, bodyMap, Op.isQuantifier, lookup,
+    SMap.toTMap, σ50, Term.mkNot, Term.sym, a, xb, yb, Sym.var, isBvSameWidthOp]
+
+example : ¬ MSSafe σ50 := by
+  intro h
+  have := h (a, .mkNot (.sym xb)) (by simp [σ50]) (.sym xb) .none rfl
+  simp [lookup, SMap.toTMap, σ50, Term.sym, a, xb, Sym.var] at this
+
+end Examples
 
 end PySMT.C05
